@@ -40,27 +40,30 @@ _WALK_CACHE = {}
 
 
 def _scan(e, fnids):
-    """(index terms, sigma/extremum applications) of one formula, cached per formula object"""
+    """(index terms, candidate sigma/extremum applications) of one formula, cached per formula object"""
     key = e.get_id()
     hit = _WALK_CACHE.get(key)
-    if hit is not None and hit[3] == len(fnids):
-        return hit[0], hit[1]
-    out = {}
+    if hit is None:
+        out = {}
+        cand = []
+        for x in _walk([e]):
+            if not z3.is_app(x):
+                continue
+            k = x.decl().kind()
+            if k == z3.Z3_OP_SELECT or k == z3.Z3_OP_STORE:
+                idx = x.arg(1)
+                if idx.sort() == z3.IntSort():
+                    out[idx.get_id()] = idx
+            elif k == z3.Z3_OP_UNINTERPRETED and x.num_args() == 2:
+                cand.append((x.decl().get_id(), x))
+        hit = (out, cand, e)
+        _WALK_CACHE[key] = hit
     apps = {}
-    for x in _walk([e]):
-        if not z3.is_app(x):
-            continue
-        k = x.decl().kind()
-        if k == z3.Z3_OP_SELECT or k == z3.Z3_OP_STORE:
-            idx = x.arg(1)
-            if idx.sort() == z3.IntSort():
-                out[idx.get_id()] = idx
-        elif k == z3.Z3_OP_UNINTERPRETED and x.num_args() == 2:
-            r = fnids.get(x.decl().get_id())
-            if r is not None:
-                apps[x.get_id()] = (r, x)
-    _WALK_CACHE[key] = (out, apps, e, len(fnids))
-    return out, apps
+    for did, x in hit[1]:
+        r = fnids.get(did)
+        if r is not None:
+            apps[x.get_id()] = (r, x)
+    return hit[0], apps
 
 
 def index_terms(exprs, sums, exts):
@@ -79,9 +82,19 @@ def index_terms(exprs, sums, exts):
 
 
 def ground(ob, ctx, rounds=2, max_terms=60):
+    ctx._grounding = getattr(ctx, "_grounding", 0) + 1
+    try:
+        return _ground(ob, ctx, rounds, max_terms)
+    finally:
+        ctx._grounding -= 1
+
+
+def _ground(ob, ctx, rounds=2, max_terms=60):
     sums = getattr(ctx, "sums", [])
     exts = getattr(ctx, "exts", [])
-    hyps = [zbool(c) for c in ob.pc]
+    from .values import POW_FACTS
+
+    hyps = [zbool(c) for c in ob.pc] + list(POW_FACTS)
     goal = ob.goal
     terms = {}
     for it in ob.sums or []:
@@ -102,6 +115,10 @@ def ground(ob, ctx, rounds=2, max_terms=60):
             a, b = app.arg(0), app.arg(1)
             if kind == "sum":
                 extra.append(z3.Implies(a >= b, app == 0))
+                if getattr(sym, "positive", False):
+                    extra.append(z3.Implies(a < b, app > 0))
+                if getattr(sym, "nonneg", False):
+                    extra.append(app >= 0)
                 extra.append(z3.Implies(a < b, app == sym.fn(a, b - 1) + sym.body(b - 1)))
                 extra.append(z3.Implies(a < b, app == sym.body(a) + sym.fn(a + 1, b)))
             else:
@@ -127,14 +144,23 @@ def ground(ob, ctx, rounds=2, max_terms=60):
     return hyps + extra, goal
 
 
-def check(ob, ctx, timeout_ms=10000, want_model=True, use_cvc5=True):
+def free_symbols(e):
+    out = set()
+    for x in _walk([e]):
+        if z3.is_app(x) and x.decl().kind() == z3.Z3_OP_UNINTERPRETED:
+            out.add(x.decl().name())
+    return out
+
+
+def check(ob, ctx, timeout_ms=10000, want_model=True, use_cvc5=True, wall_ms=None):
     t0 = time.time()
     try:
         hyps, goal = ground(ob, ctx)
     except Exception as e:  # grounding must never turn into a verdict
         return {"status": "error", "reason": f"grounding: {type(e).__name__}: {e}", "time": time.time() - t0}
     s = z3.Solver()
-    s.set("timeout", timeout_ms)
+    s.set("rlimit", timeout_ms * 4000)
+    s.set("timeout", wall_ms or max(timeout_ms * 6, 30000))
     for h in hyps:
         s.add(h)
     s.add(z3.Not(goal))
